@@ -86,6 +86,8 @@ pub enum Op {
     Commit,
     PrepareCommit { payload: Option<String>, commit: bool },
     Rollback,
+    /// `prepare_commit()` whose result is dropped without commit or abort
+    PrepareDrop,
     /// explicit merge of a seeded subset of the searchable segments; wait = block on the result
     Merge { sel: u64, wait: bool },
     /// wait for all pending explicit merge futures
@@ -270,8 +272,12 @@ pub fn gen_history(g: &mut Gen, cfg: &Cfg, n_ops: usize, merge_heavy: bool, allo
                 since_commit = 0;
             }
             6 => {
-                ops.push(Op::Rollback);
-                since_commit = 0;
+                if g.rng.chance(1, 4) {
+                    ops.push(Op::PrepareDrop);
+                } else {
+                    ops.push(Op::Rollback);
+                    since_commit = 0;
+                }
             }
             7 => ops.push(Op::Merge { sel: g.rng.next_u64(), wait: g.rng.chance(1, 3) }),
             8 => ops.push(Op::MergeWait),
